@@ -1102,7 +1102,18 @@ struct ArraysWorld : World {
 				content<Tracked> *c = ok ? TA[h]->_ref.instance() : 0; unsigned act = (unsigned) (op.c / 3) % 4;
 				if (c && !c->shared() && act) {
 					const size_t es = sizeof(Tracked);
-					if (act == 1) {
+					if (act == 1 && (op.c & 0x80)) {
+						// raw bytes are not elements: moving a raw buffer into the typed one (or the typed one into a raw one) is refused, as copy refuses it
+						buffer *raw; { Sut s; raw = buffer::create(64); if (raw) { void *w = raw->append(16); if (w) memset(w, 0x5a, 16); } }
+						if (raw) {
+							bool r1, r2; { Sut s; r1 = c->move(*raw); }
+							if (r1) fail("accepted-invalid", "buffer move of 16 raw bytes into a buffer of managed elements was accepted (they will be handed to the element destructor)");
+							{ Sut s; r2 = raw->move(*c); }
+							if (r2) fail("accepted-invalid", "buffer move of %zu managed elements into a raw buffer was accepted (nobody will destroy them)", MT[h].size());
+							{ Sut s; raw->unref(); }
+							st.hit("probe:buffer_move_type_mismatch");
+						}
+					} else if (act == 1) {
 						size_t k = MT[h].empty() ? 0 : (size_t) op.c % (MT[h].size() + 1); bool r; { Sut s; r = c->skip(k * es); }
 						log.ev("    buffer skip %zu of %zu -> %d", k, MT[h].size(), (int) r);
 						if (!r) fail("refused-valid", "buffer skip of %zu elements refused with %zu present", k, MT[h].size());
